@@ -32,6 +32,9 @@ INVARIANT_OF = {
 }
 
 
+COVERAGE = [False]   # per-action coverage (slow) only in the thorough tier
+
+
 def graph(name, need_mc=False):
     """(init, adj, descs, mc_result_or_None) of campaign `name`; the labelled state
     graph is cached under build/ keyed by the hash of the specification."""
@@ -55,7 +58,7 @@ def graph(name, need_mc=False):
     with open(cache, "rb") as fh:
         g = pickle.load(fh)
     if need_mc and res is None:
-        res = tlc.run("MCSession.tla", camp["cfg"], workers=16, coverage=True)
+        res = tlc.run("MCSession.tla", camp["cfg"], workers=16, coverage=COVERAGE[0])
         if res.violation:
             raise common.Machinery(f"design model {camp['cfg']} violates {res.violation}:\n{res.out[-3000:]}")
     return g["init"], g["adj"], g["descs"], res
@@ -213,6 +216,7 @@ def check(prop, tier, seed, replay=None):
         run.sample(sample_of(tr))
         report(run, [tr], verdicts, prop)
         return run.finish()
+    COVERAGE[0] = tier == "thorough"
     if tier == "quick":
         plan_ = [("n1", 400, False, True), ("n2", 1500, False, True), ("n3", 1200, False, False),
                  ("n4", 600, False, False)]
